@@ -366,6 +366,42 @@ End Heap.
 Arguments cell : clear implicits.
 Arguments heapw : clear implicits.
 
+(* ---- one Extension object over time: definitions are added, and in between the object is serialised
+   (seeded round 4) ----
+   `SSer`: `e.to_json()` — the document is an OUTPUT, the object is left alone (nothing in ext.py keeps
+   anything from one call of `_to_serial` to the next).  `SLoad`: the document is written and the session
+   goes on with the object `from_json` returns.  `session` lists the documents in the order they are written;
+   a document that does not load ends the session. *)
+Section Session.
+  Context {T ST V SV M : Type}.
+  Variables (ser_t : T -> ST) (deser_t : ST -> T) (ser_v : V -> SV) (deser_v : SV -> V).
+  Inductive sstep := SAdd (c : cmd T V M) | SSer | SLoad.
+  Fixpoint session (e : extension T V M) (p : list sstep) : list (res (sextension ST SV M)) :=
+    match p with
+    | [] => []
+    | SAdd c :: r => session (step e c) r
+    | SSer :: r => to_serial ser_t ser_v e :: session e r
+    | SLoad :: r =>
+        let d := to_serial ser_t ser_v e in
+        d :: match bind d (deserialize deser_t deser_v) with
+             | Ok e' => session e' r
+             | Err _ => []
+             end
+    end.
+  (* the seeded variant (C10-g), for the refutation only: `to_json` keeps its document in the object, `add_type_def`
+     and `add_op_def` drop it, `add_extension_value` does not *)
+  Fixpoint session_stale (e : extension T V M) (cache : option (res (sextension ST SV M))) (p : list sstep)
+    : list (res (sextension ST SV M)) :=
+    match p with
+    | [] => []
+    | SAdd c :: r => session_stale (step e c) (match c with AddValue _ => cache | _ => None end) r
+    | SSer :: r | SLoad :: r =>
+        let d := match cache with Some d => d | None => to_serial ser_t ser_v e end in
+        d :: session_stale e (Some d) r
+    end.
+End Session.
+Arguments sstep : clear implicits.
+
 (* ---- payload instance used by the correspondence runs and the regenerated data: JSON trees
    (strings and float literals interned by the harness), identity codec ---- *)
 Inductive json :=
